@@ -112,7 +112,9 @@ func (c19) Exec(t *testing.T, c *Case, replay []int) *Outcome {
 				return nil
 			}
 			for _, a := range asserts[i] {
-				if a.ret == 0 || a.ret >= before || a.inv <= attached[i] {
+				// (an assertion made before the waker's current attachment counts as well: a waker stays
+				// asserted across Done and AddWaker, and the sleeper it is attached to next hears of it)
+				if a.ret == 0 || a.ret >= before {
 					continue
 				}
 				taken := false
